@@ -71,7 +71,7 @@ def rand_custom(rng, ascii_only):
         if k < 0.7:
             return rng.choice([True, False])
         if k < 0.8:
-            return rng.choice([2.5, 0.5, 1.25])
+            return rng.choice([2.5, 0.5, 1.25, -5, -1.5, 2024.5])
         if k < 0.9:
             return None
         return rng.choice(["0051", "000", "v1.2", "Feature/API"])
